@@ -246,7 +246,7 @@ func checkC32Abstraction(w *World, r *Run, ruleAbs, ruleContains string, isTrust
 		nonEmptyGuard := false
 		inSlice := map[ssa.Value]bool{}
 		backSlice(v, true, func(x ssa.Value) { inSlice[x] = true })
-		ofResult := func(x ssa.Value) bool { return inSlice[x] }
+		ofResult := func(x ssa.Value) bool { return inSlice[x] && types.Identical(x.Type(), v.Type()) }
 		for _, f := range factsAt(ret.Block()) {
 			if bo, ok := f.Val.(*ssa.BinOp); ok && isLenOf(bo.X, ofResult) {
 				if n, isc := intConst(bo.Y); isc && ((bo.Op == token.GTR && n == 0 && f.Kind == IsTrue) || (bo.Op == token.EQL && n == 0 && f.Kind == IsFalse)) {
